@@ -161,13 +161,15 @@ def judge(p, e, r):
 # running op lines
 # ---------------------------------------------------------------------------------------------
 
-def run_chunk(exe, lines, env=None, timeout=900):
+def run_chunk(exe, lines, env=None, timeout=900, stderr_log=None):
     """Runs the lines in one process; when the process dies, the remaining lines continue in a new process.
-    Returns list of (line, result-dict | None, rc, stderr)."""
+    Returns list of (line, result-dict | None, rc, stderr). `stderr_log` (a list) receives (lines, stderr) per process."""
     out = []
     todo = list(lines)
     while todo:
         rc, o, err = vlib.run_lines([exe], todo, timeout=timeout, env=env)
+        if stderr_log is not None and err.strip():
+            stderr_log.append((list(todo), err))
         n = len([x for x in o if x.startswith("mt_ret=")])
         for i in range(min(n, len(todo))):
             out.append((todo[i], parse_result(o[i]), 0, ""))
@@ -315,8 +317,11 @@ def run_cases(ctx, exe, cases, label, model_ok, tsan=False):
     parts = [cases[i:i + per] for i in range(0, len(cases), per)]
     env = {"TSAN_OPTIONS": "halt_on_error=0 exitcode=0 second_deadlock_stack=1", "ASAN_OPTIONS": "detect_leaks=1:abort_on_error=0"}
 
+    tsan_err = []
+
     def work(part):
-        return run_chunk(exe, [line_of(p) for _, p in part], env=env, timeout=600 if tsan else 900)
+        return run_chunk(exe, [line_of(p) for _, p in part], env=env, timeout=600 if tsan else 900,
+                         stderr_log=tsan_err if tsan else None)
     results = vlib.par_map(work, parts)
     nbad = 0
     tot = dict(steps=0, switches=0, waits=0, to=0, spur=0, cont=0)
@@ -370,26 +375,21 @@ def run_cases(ctx, exe, cases, label, model_ok, tsan=False):
                         "kind": "threaded decoder differs from the single-threaded decoder: " + "; ".join(fails), "op": line,
                         "result": {k: v for k, v in r.items() if k != "ev"}, "file_name": e["name"], "file_b64": file_blob(e["path"]),
                         "how_to_replay": "./check C07 --replay <this file>"}, True)
-    # TSan reports (attributed to the chunk that produced them)
+    # TSan reports (attributed to the process = chunk of op lines that produced them)
     ntsan = 0
     if tsan:
         seen = set()
-        for part, res in zip(parts, results):
-            errs = "".join(err for _, _, _, err in res)
-        # run_chunk drops stderr of successful processes; collect it again per chunk for reports
-        def work2(part):
-            rc, o, err = vlib.run_lines([exe], [line_of(p) for _, p in part], timeout=600, env=dict(env, TSAN_OPTIONS="halt_on_error=0 exitcode=66"))
-            return rc, err
-        # (second pass only over chunks; cheap enough and keeps run_chunk simple)
-        second = vlib.par_map(work2, parts)
-        for part, (rc, err) in zip(parts, second):
+        bypath = {line_of(p): e for e, p in cases}
+        for lines_, err in tsan_err:
             for key, summary, text in tsan_reports(err, vlib.REPO):
                 ntsan += 1
+                ctx.count("tsan-report:" + key[:120])
                 if key in seen:
                     continue
                 seen.add(key)
-                ctx.violation("tsan", {"kind": "ThreadSanitizer report under real scheduling: " + summary, "ops": [line_of(p) for _, p in part],
-                                       "report": text, "files_b64": {e["name"]: file_blob(e["path"]) for e, _ in part},
+                es = {bypath[ln]["name"]: bypath[ln] for ln in lines_ if ln in bypath}
+                ctx.violation("tsan", {"kind": "ThreadSanitizer report under real scheduling: " + summary, "ops": lines_,
+                                       "report": text, "files_b64": {n: file_blob(e["path"]) for n, e in es.items()},
                                        "how_to_replay": "./check C07 --replay <this file>   (TSan build, real scheduling; races are timing dependent: the replay repeats the chunk up to 20 times)"},
                               True, key=key)
     ctx.cov["correspondence"].setdefault("stages", {})[label] = {
@@ -402,6 +402,8 @@ def run_cases(ctx, exe, cases, label, model_ok, tsan=False):
             trace_jobs = [j for j in trace_jobs if len(j[3]["ev"]) < 150000]
             if len(trace_jobs) > 1000:
                 trace_jobs = trace_jobs[::max(1, len(trace_jobs) // 1000)]
+        elif len(trace_jobs) > 20000:
+            trace_jobs = trace_jobs[::max(1, len(trace_jobs) // 20000)]
         trace_inclusion(ctx, trace_jobs, label)
     return nbad
 
